@@ -37,6 +37,11 @@ theorem good_weak : Good Sem.weak := by
 theorem good_opaque (b : Bool) : Good (Sem.opaque b) := by
   intro h; simp [Sem.opaque] at h
 
+theorem good_ref (st : Bool) (t : Sem) : Good (Sem.ref st t) := by
+  intro hcol v hv
+  simp only [Sem.ref] at hcol
+  cases v <;> simp_all [Sem.ref, Sem.visit, ptrsOf]
+
 theorem good_default : Good (default : Sem) := good_opaque false
 
 theorem good_getD (ρ : List Sem) (h : EnvGood ρ) (i : Nat) : Good (ρ.getD i default) := by
@@ -375,6 +380,7 @@ theorem Ty.sem_good : ∀ (t : Ty) (ρ : List Sem), EnvGood ρ → Good (Ty.sem 
   | .weak, _, _ => by simpa [Ty.sem] using good_weak
   | .opaque b, _, _ => by simpa [Ty.sem] using good_opaque b
   | .param i, ρ, h => by simpa [Ty.sem] using good_getD ρ h i
+  | .ref st t, ρ, _ => by simpa [Ty.sem] using good_ref st (Ty.sem ρ t)
   | .con c args, ρ, h => by
       simp only [Ty.sem]
       exact good_con c _ (Ty.sems_good args ρ h)
@@ -768,6 +774,14 @@ def heldInTracedFields (d : Decl) : Val → List Ptr
     | none => []
   | _ => []
 
+/-- Tag of the outermost constructor of a type shape (for coverage statements). -/
+def Ty.ctor : Ty → Nat
+  | .leaf => 0 | .gc => 1 | .weak => 2 | .opaque _ => 3 | .param _ => 4 | .ref _ _ => 5
+  | .con _ _ => 6 | .adt _ _ => 7
+
+/-- Number of constructors of `Ty`. -/
+def Ty.nctors : Nat := 8
+
 /-! ### Declarations used by the non-vacuity examples of `GcArena.Props.C15`
 
 (the declarations of `tests/tests.rs::derive_collect` and a nested shape) -/
@@ -815,6 +829,36 @@ def staticModeTwoLifetimes : Decl :=
 
 /-- `#[collect(no_drop)] struct Holder { inner: Test7 }` -/
 def holder : Decl := strct [[.mode .noDrop]] 0 0 false .named [fld (.adt test7 [])]
+
+/-- `#[derive(Collect)] #[collect(no_drop)] struct Wrap<T>(T);` -/
+def wrapD : Decl := strct [[.mode .noDrop]] 0 1 false .tuple [fld (.param 0)]
+/-- `#[derive(Collect)] #[collect(no_drop)] struct Wrapped<'gc>(Gc<'gc, Tracked>);` -/
+def wrappedD : Decl := strct [[.mode .noDrop]] 1 0 false .tuple [fld .gc]
+
+/-- The NOT-`Collect` field types of the rejection-probe family "a field whose type is not Collect"
+of lib/eng_collect.py (`TYPE_FORMS`, `TF_EXTRA`, plus `bound_override_empty_with_param_field`), in
+table order, as the model sees them: `&'gc Tracked`, `&'gc mut Gc<'gc, Tracked>`, `&'gc NotCollect`,
+`(u8, Hidden<'gc>)`, `[Hidden<'gc>; 1]`, `Box<[Hidden<'gc>]>`, `*const Tracked`,
+`fn(Gc<'gc, Tracked>)`, `(Hidden<'gc>)`, `Hidden<'gc>`, `Box<Hidden<'gc>>`, `Option<&'gc Tracked>`,
+`Cell<Gc<'gc, Tracked>>`, `RefCell<Gc<'gc, Tracked>>`, `Vec<NotCollect>`, `Wrap<Hidden<'gc>>`,
+`&'a Tracked` (declared lifetime), `&'gc Tracked` through a `$t:ty` macro fragment (`Group`), a type
+parameter without bound. -/
+def probeNotCollectFieldTypes : List Ty :=
+  [.ref false .leaf, .ref false .gc, .ref false (.opaque true),
+   .con .tuple [.leaf, .opaque false], .con (.array 1) [.opaque false], .con .box [.con .vec [.opaque false]],
+   .opaque true, .opaque false, .opaque false, .opaque false, .con .box [.opaque false],
+   .con .option [.ref false .leaf], .opaque false, .opaque false, .con .vec [.opaque true],
+   .adt wrapD [.opaque false], .ref false .leaf, .ref false .leaf, .param 0]
+/-- The `Collect` control twins, same order: `&'static Tracked`, `&'static u8`, `&'static NotCollect`,
+`(u8, Gc)`, `[Gc; 1]`, `Box<[GcWeak]>`, `u8`, `PhantomData<fn(Gc)>`, `(Gc)`, `Wrapped<'gc>`,
+`Box<GcWeak>`, `Option<&'static Tracked>`, `Lock<Gc>`, `RefLock<Gc>`, `Vec<u8>`, `Wrap<Gc>`,
+`(&'static Tracked, PhantomData<&'a ()>)`, `&'static Tracked` through `$t:ty`, a bounded parameter;
+and a `GcWeak` field of the other probes. -/
+def probeCollectFieldTypes : List Ty :=
+  [.ref true .leaf, .ref true .leaf, .ref true (.opaque true), .con .tuple [.leaf, .gc], .con (.array 1) [.gc],
+   .con .box [.con .vec [.weak]], .leaf, .leaf, .gc, .adt wrappedD [], .con .box [.weak],
+   .con .option [.ref true .leaf], .con .lock [.gc], .con .refLock [.gc], .con .vec [.leaf], .adt wrapD [.gc],
+   .con .tuple [.ref true .leaf, .leaf], .ref true .leaf, .param 0, .weak]
 
 end Examples
 
